@@ -1159,3 +1159,92 @@ Proof.
     cbn [hist_valid] in Hrest. destruct Hrest as [[_ [_ [_ [_ [Hs' _]]]]] _]. pose proof Hbase as [Hbs _].
     apply render_path_denotes; assumption.
 Qed.
+
+(** * URLs with an explicit prefix (also for the default locale) *)
+Lemma switch_core : forall names dflt base bsegs t a b segs rest old path,
+  names_ok names = true -> atab_ok (length names) t = true -> (a < length names)%nat -> (b < length names)%nat ->
+  forallb seg_ok segs = true -> base_ok base bsegs ->
+  path_segments path = bsegs ++ rest -> strip_locale names old rest = segs ->
+  match old with Some l => l | None => dflt end = a ->
+  get_new_pathname names dflt base (tabs_of (length names) t) path b old
+  = Ok (render_path (bsegs ++ prefix_of names dflt b ++ expected_segs (length names) t a b segs)).
+Proof.
+  intros names dflt base bsegs t a b segs rest old path Hn Ht Ha Hb Hs Hbase Hpath Hstrip O.
+  destruct (base_ok_facts base bsegs Hbase) as [Bseg Btrim].
+  unfold get_new_pathname. cbv zeta.
+  rewrite (pb_push_base pb_new base bsegs Hbase).
+  assert (S1 : strip_base_path path base = Some rest).
+  { unfold strip_base_path. rewrite Bseg, Hpath. apply strip_segs_iff. reflexivity. }
+  rewrite S1. cbv beta iota.
+  rewrite O. rewrite (tabs_get_of _ t a Ha). cbv beta iota. rewrite (tabs_get_of _ t b Hb). cbv beta iota.
+  match goal with |- context [localize_path _ _ _ ?pb] =>
+    assert (P1 : pb = pb_new ++ base_piece bsegs ++ prefix_of names dflt b) end.
+  { unfold prefix_of. destruct (Nat.eqb b dflt).
+    - rewrite app_nil_r. reflexivity.
+    - rewrite pb_push_seg by (apply names_ok_nth; assumption). rewrite <- app_assoc. reflexivity. }
+  rewrite P1. rewrite Hstrip.
+  rewrite (localize_first (length names) t a b segs _ Ht Ha Hb Hs).
+  unfold expected_segs. destruct (first_parse (length names) a t segs) as [inst|] eqn:F.
+  - unfold pb_new. cbn [app]. rewrite <- app_assoc. f_equal. apply pb_build_base.
+  - rewrite (fold_push_segs segs _ Hs). unfold pb_new. cbn [app]. rewrite <- !app_assoc. f_equal. apply pb_build_base.
+Qed.
+
+Theorem switch_explicit_pathname : forall names dflt base bsegs t a b segs path,
+  valid_url_explicit names t a b segs -> base_ok base bsegs -> path_denotes_explicit names bsegs a segs path ->
+  get_new_pathname names dflt base (tabs_of (length names) t) path b (Some a)
+  = Ok (render_path (bsegs ++ prefix_of names dflt b ++ expected_segs (length names) t a b segs)).
+Proof.
+  intros names dflt base bsegs t a b segs path [Hn [Ht [Ha [Hb Hs]]]] Hbase Hpath.
+  apply (switch_core names dflt base bsegs t a b segs (name_of names a :: segs) (Some a) path); auto.
+  cbn [strip_locale]. rewrite str_eqb_refl. reflexivity.
+Qed.
+
+Theorem switch_explicit : forall names dflt base bsegs t a b segs path search hash,
+  valid_url_explicit names t a b segs -> base_ok base bsegs -> path_denotes_explicit names bsegs a segs path ->
+  get_new_path names dflt base (tabs_of (length names) t) path search hash b (Some a)
+  = Ok (render_path (bsegs ++ prefix_of names dflt b ++ expected_segs (length names) t a b segs) ++ url_suffix search hash).
+Proof.
+  intros. unfold get_new_path. rewrite (switch_explicit_pathname names dflt base bsegs t a b segs path); auto.
+Qed.
+
+Lemma get_locale_explicit : forall names base bsegs a segs path,
+  NoDup names -> (a < length names)%nat -> base_ok base bsegs -> path_denotes_explicit names bsegs a segs path ->
+  get_locale_from_path names path base = Some a.
+Proof.
+  intros names base bsegs a segs path Hnd Ha Hbase Hpath.
+  destruct (base_ok_facts base bsegs Hbase) as [Bseg _].
+  apply get_locale_whole_segment. split; [exists segs; rewrite Bseg; exact Hpath|]. split; [exact Ha|].
+  intros j Hj Heq. unfold name_of in Heq.
+  assert (j = a); [|lia]. apply (proj1 (NoDup_nth names ([] : str)) Hnd); [lia|exact Ha|exact Heq].
+Qed.
+
+Theorem history_explicit_start : forall names dflt base bsegs t by_path l ls a segs path,
+  valid_url_explicit names t a l segs ->
+  hist_valid names dflt t l (expected_segs (length names) t a l segs) ls ->
+  base_ok base bsegs -> (by_path = true -> NoDup names) -> path_denotes_explicit names bsegs a segs path ->
+  history names dflt base (tabs_of (length names) t) by_path path (Some a) (l :: ls)
+  = Ok (map (fun ls' => render_path (bsegs ++ prefix_of names dflt (fst ls') ++ snd ls'))
+            (expected_history (length names) t a segs (l :: ls))).
+Proof.
+  intros names dflt base bsegs t by_path l ls a segs path Hv Hrest Hbase Hnd Hpath.
+  pose proof Hv as [Hn [Ht [Ha [Hl Hs]]]].
+  cbn [history expected_history map fst snd].
+  assert (Hold : (if by_path then get_locale_from_path names path base else Some a) = Some a).
+  { destruct by_path; [|reflexivity]. apply (get_locale_explicit names base bsegs a segs path (Hnd eq_refl) Ha Hbase Hpath). }
+  rewrite Hold. rewrite (switch_explicit_pathname names dflt base bsegs t a l segs path Hv Hbase Hpath).
+  destruct ls as [|l2 ls'].
+  - reflexivity.
+  - rewrite (history_first_match names dflt base bsegs t by_path (l2 :: ls') l
+               (expected_segs (length names) t a l segs) _ Hrest Hbase Hnd); [reflexivity|].
+    cbn [hist_valid] in Hrest. destruct Hrest as [[_ [_ [_ [_ [Hs' _]]]]] _]. pose proof Hbase as [Hbs _].
+    apply render_path_denotes; assumption.
+Qed.
+
+Theorem spec_explicit_holds : forall names dflt base bsegs t a b segs path search hash,
+  valid_url_explicit names t a b segs -> base_ok base bsegs -> path_denotes_explicit names bsegs a segs path ->
+  spec_first_match names dflt bsegs t a b segs search hash
+    (get_new_path names dflt base (tabs_of (length names) t) path search hash b (Some a)) = true.
+Proof.
+  intros. rewrite (switch_explicit names dflt base bsegs t a b segs path); auto.
+  unfold spec_first_match, res_str_eqb. apply str_eqb_refl.
+Qed.
